@@ -67,7 +67,7 @@ def properties_section() -> str:
             out.append(f"**Refutation witnesses proved in Lean and replayed on the implementation:** {', '.join(witness)}.\n")
         out.append(f"**Theorems in `Props/{pid}.lean` ({len(thms)}):** {', '.join(thms)}.\n")
         extra = []
-        for label, table in (("Props/Redis.lean + Props/RedisConservation.lean", LS.REDIS_THEOREMS), ("Props/Rabbit.lean", LS.RABBIT_THEOREMS),
+        for label, table in (("Props/Redis.lean + Props/RedisConservation.lean", LS.REDIS_THEOREMS), ("Props/Rabbit.lean + Props/RabbitConservation.lean", LS.RABBIT_THEOREMS),
                              ("Props/StopRedis.lean", LS.STOP_THEOREMS)):
             if table.get(pid):
                 extra.append(f"`{label}`: {', '.join(table[pid])}")
